@@ -10,10 +10,10 @@ From Ecal Require Import Common.Bytes Common.Hex Model.Lexer Spec.PositionSpec.
 Open Scope N_scope.
 
 Inductive case :=
-| CLex (id : nat) (input : bytes) (toks : list token)
-| CTables (id : nat) (kw sym : list (bytes * nat)) (space control number lower : list (Z * Z)).
+| CLex (id : N) (input : bytes) (toks : list token)
+| CTables (id : N) (kw sym : list (bytes * nat)) (space control number lower : list (Z * Z)).
 
-Definition c_id (c : case) : nat :=
+Definition c_id (c : case) : N :=
   match c with CLex id _ _ => id | CTables id _ _ _ _ _ _ => id end.
 
 Definition tok_kind (t : token) : nat :=
@@ -99,7 +99,7 @@ Definition verdict (c : case) : nat :=
     then 0%nat else 4%nat
   end.
 
-Definition check_all (cs : list case) : list (nat * nat) :=
+Definition check_all (cs : list case) : list (N * nat) :=
   filter (fun p => negb (Nat.eqb (snd p) 0)) (map (fun c => (c_id c, verdict c)) cs).
 
 (* shorthand used by the cases files *)
